@@ -326,6 +326,16 @@ Definition removal (repaired : bool) (sh : shell) (r : pref) (o : rop) (m : opti
   | Panic => Panic
   end.
 
+(** * [${!a[@]}] / [${!a[*]}] ([MemberKeys]): [element_keys] of the variable. *)
+Definition member_keys (sh : shell) (concat : bool) : expansion :=
+  let keys := match var sh with
+              | VNone | VUnset => []
+              | VStr _ => [zero_str]
+              | VIdx l => map (fun kv => show_Z (fst kv)) l
+              | VAssoc l => map fst l
+              end in
+  {| fields := keys; concatenate := concat; from_array := true; undefined := false |}.
+
 (** * What ["${…}"] hands to the command: [process_double_quoted_pieces] for a single piece,
     default IFS. *)
 Definition dq_args (e : expansion) : list str :=
